@@ -384,6 +384,35 @@ def flag_reads_at(cx, b, block_pred):
     return out
 
 
+def check_must_reject(cx, chk, R="C15.restrict", only=None):
+    """Instance side of `restrict`: one small grammar per documented restriction (corpus/grammars/reject_*.ebnf, with the derive
+    set that makes it invalid) is handed to the tree's generator by the corpus build script; every one has to be refused - by
+    the generator, not by the front end.  Their output, if any, is never compiled or run."""
+    acc, ref = cx.must_reject_accepted, cx.must_reject_refused
+    if acc is None or ref is None:
+        chk.anchor_missing(R, "corpus must-reject list (MUST_REJECT_*.txt)")
+        return
+    n = 0
+    for row in acc:
+        if only and not any(o in row[0] for o in only):
+            continue
+        chk.violation(R, "accepted %s" % row[0],
+                      "the grammar %s breaks a documented restriction (%s) and is ACCEPTED: the compiler has to reject it with an error - what it "
+                      "generates instead does not compile or does not mean what the grammar says" % (row[1] if len(row) > 1 else row[0], row[0].replace("_", " ")))
+    for row in ref:
+        if only and not any(o in row[0] for o in only):
+            continue
+        n += 1
+        msg = row[2] if len(row) > 2 else ""
+        if "-->" in msg or "Parse error" in msg:
+            chk.violation(R, "front-end %s" % row[0], "the must-reject grammar %s is refused by the front end (%s), not by the restriction it is meant to break: "
+                          "the corpus entry is wrong" % (row[0], msg[:100]))
+        else:
+            chk.ok(R, "refused %s" % row[0], {"grammar": row[0], "error": msg[:160]})
+    if not only:
+        chk.floor(R, "must-reject grammars refused", n, 12)
+
+
 def check_cached(cx, chk):
     cg = cx.codegen
     _CX[0] = cx
@@ -949,6 +978,7 @@ def run(cx, chk):
     chk.assumptions = ["termination beyond the absence of unguarded by-name recursion is not decided ('never hangs')"]
     check_exit(cx, chk)
     check_restrict(cx, chk)
+    check_must_reject(cx, chk)
     check_cached(cx, chk)
     check_panic(cx, chk)
     check_prepass(cx, chk)
